@@ -9,6 +9,7 @@ mod case;
 mod exec_float;
 mod exec_int;
 mod exec_ratio;
+mod f7;
 mod gen;
 mod gen_fr;
 mod ops;
@@ -126,6 +127,7 @@ fn main() {
             let to = arg_u64(&args, "--to", 100);
             let max_viol = arg_u64(&args, "--max-viol", 20);
             let hashes = args.iter().any(|a| a == "--hashes");
+            let mark_runs = args.iter().any(|a| a == "--mark-runs");
             let recheck = arg_u64(&args, "--recheck-every", 100);
             let mut stats = run::Stats::new();
             let mut ctx = Ctx::new();
@@ -140,6 +142,10 @@ fn main() {
             for i in from..to {
                 run::CUR_RUN.store(i, std::sync::atomic::Ordering::Relaxed);
                 run::watchdog(120);
+                if mark_runs {
+                    writeln!(lock, "RUN {}", i).unwrap();
+                    lock.flush().unwrap();
+                }
                 let c = gen_case(prop, seed, i);
                 let r = run_case(&c, &mut stats, &mut ctx);
                 executions += r.executions;
@@ -236,6 +242,23 @@ fn main() {
             let mut j = stats.to_json();
             j["executions"] = stats.runs.into();
             writeln!(lock, "STATS {}", j).unwrap();
+        }
+        "f7" => {
+            // reader-thread scenario; meant to run under Miri (`cargo +nightly miri run -- f7 ...`)
+            let seed = arg_u64(&args, "--seed", 20261002);
+            let from = arg_u64(&args, "--from", 0);
+            let to = arg_u64(&args, "--to", 4);
+            let mut ops = 0usize;
+            for i in from..to {
+                println!("RUN {}", i);
+                let r = f7::run_f7(seed, i);
+                ops += r.ops;
+                if let Some(m) = r.mismatch {
+                    println!("VIOLF7 run={} {}", i, m);
+                    std::process::exit(1);
+                }
+            }
+            println!("F7OK runs={} ops={}", to - from, ops);
         }
         "exec" => {
             // execute one case file; prints RESULT line; exit 0 always unless harness error
